@@ -5,6 +5,7 @@ from .. import cfg, util, docs, translator as TR
 from ..core import RuleResult, need
 from ..facts import callee, op_local, op_place
 from ..linear import Linear, LEN, show
+from .. import absint as AI
 from ..origins import Origins, calls_in, results_in
 
 CHECKED = {"Add": "checked_add", "Sub": "checked_sub", "Mul": "checked_mul", "Div": "checked_div", "Rem": "checked_rem"}
@@ -51,6 +52,74 @@ def _pops(fn):
 
 def _which_pop(labels, pops):
     return [i + 1 for i, (b, lab) in enumerate(pops) if lab in labels]
+
+
+class OperandSim(AI.Sim):
+    """abstract evaluation with symbolic operands: the k-th VM::pop on a path yields the symbol P<k>; symbols flow through
+    moves, references, payload reads, helpers, closures and function items; every machine operation (core::ops on i64 / f64,
+    checked_*, comparison) that meets a symbol is recorded with what arrived in its left and right slot"""
+
+    def _call(self, fn, b, t, fr, fd, depth):
+        c = callee(t)
+        args = [self.operand(fr, a, fn) for a in t["args"]]
+        if c == POP:
+            k = fr.env.get((-1, ()), ("i", 0))[1] + 1
+            f2 = AI.Frame(fr.env)
+            f2.env[(-1, ())] = ("i", k)
+            val = AI.ok_(("e", "(tuple)", None, (("0", ("sym", k)), ("1", AI.U))))
+            return [(fd, val, f2)]
+        mo = machine_op(c)
+        A = [self._deref(a, fr, fn) for a in args]
+        if c in getattr(self, "watch_calls", ()) and len(A) >= 3:
+            # (self, left, right, ..): which symbolic operands arrive as the two value parameters
+            self.records.append(("call:" + c, None, A[1], A[2], fn.name))
+        if mo and len(A) >= 2:
+            if A[0][0] == "sym" or A[1][0] == "sym":
+                self.records.append((mo[0], mo[1], A[0], A[1], fn.name))
+            return [(fd, AI.U, fr)]
+        # a machine operation handed over as a function item and called here
+        item = None
+        if t.get("fnptr") is not None:
+            fv = self._deref(self.operand(fr, t["fnptr"], fn), fr, fn)
+            if fv[0] == "fnitem":
+                item, iargs = fv, A
+            elif fv[0] == "c":
+                # a non-capturing closure coerced to a function pointer (`|f, ff| f - ff`)
+                res = self.apply_closure(fv, A, fr, fd, depth, fn)
+                if res is not None:
+                    return [(nfd, v, fr) for nfd, v in res]
+        elif c.startswith("core::ops::function::Fn") and len(args) == 2 and A[0][0] == "fnitem" and A[1][0] == "e":
+            item = A[0]
+            iargs = [self._deref(AI.field_of(A[1], str(i)), fr, fn) for i in range(len([k_ for k_, x in A[1][3] if k_.isdigit()]))]
+        if item is not None and len(iargs) >= 2:
+            name, full = item[1], item[2]
+            what = machine_op(name) or machine_op(full)
+            last = name.split("::")[-1]
+            if what is None and last in ("gt", "lt", "ge", "le") and ("i64" in full or "f64" in full):
+                what = ({"gt": "Gt", "lt": "Lt", "ge": "Ge", "le": "Le"}[last], "i64" if "i64" in full else "f64")
+            if what is None and last in ("add", "sub", "mul", "div", "rem") and ("f64" in full or "i64" in full) and "ops::arith" in name + full:
+                what = ({"add": "Add", "sub": "Sub", "mul": "Mul", "div": "Div", "rem": "Rem"}[last], "i64" if "i64" in full else "f64")
+            if what is not None and (iargs[0][0] == "sym" or iargs[1][0] == "sym"):
+                self.records.append((what[0], what[1], iargs[0], iargs[1], fn.name))
+            if what is not None:
+                return [(fd, AI.U, fr)]
+        return super()._call(fn, b, t, fr, fd, depth)
+
+
+def operand_slots(F, handler, traits):
+    """{(operation, type): set of (pop ordinal in slot 0, pop ordinal in slot 1)} observed when the handler is evaluated with
+    symbolic operands"""
+    hf = F.fns[VM + handler]
+    sim = OperandSim(F, depth=8)
+    try:
+        sim.run(hf, [AI.U] * hf.nargs)
+    except AI.Lossy as e:
+        need(False, "%s: %s" % (handler, e))
+    out = {}
+    for what, ty, a, b, where in sim.records:
+        if what in traits and a[0] == "sym" and b[0] == "sym":
+            out.setdefault((what, ty), set()).add((a[1], b[1]))
+    return out
 
 
 def translator_order(F):
@@ -181,9 +250,22 @@ def r1(F):
 
     A = {"Sub": ("op_sub", "sub", "Sub"), "Div": ("op_div", "div", "Div"), "Mod": ("op_mod", "modulus", "Rem"),
          "Mul": ("op_mul", "mul", "Mul"), "Add": ("op_add", "add", "Add")}
+    from ..core import AnchorError
     for v, (handler, helper, trait) in A.items():
         lp = left_pop(v)
-        slots, hp = arith(handler, helper, trait)
+        try:
+            slots, hp = arith(handler, helper, trait)
+        except AnchorError as first:
+            # the handler is written some other way (a shared helper taking a closure or function items, ..): evaluate it with
+            # symbolic operands and read off which pop arrives in which slot of the machine operation
+            obs = operand_slots(F, handler, {trait})
+            hp = F.fn(VM + handler)
+            need({ty for (w, ty) in obs} >= {"i64", "f64"}, "%s (%s); by evaluation only %s was observed" % (first, handler, sorted(obs)))
+            slots = []
+            for (w, ty), pairs in sorted(obs.items()):
+                need(len(pairs) == 1, "%s: the operands of %s on %s arrive in several orders %s" % (handler, w, ty, sorted(pairs)))
+                s0, s1 = next(iter(pairs))
+                slots.append((ty, s0, s1))
         for ty, s0, s1 in slots:
             ok = s0 == lp and s1 != lp
             commutative = v in ("Mul",) or (v == "Add")
@@ -196,8 +278,21 @@ def r1(F):
     hf = F.fn(VM + "op_add")
     o = Origins(hf)
     pops = _pops(hf)
-    hc = [(b, t) for b, t in hf.calls() if callee(t) == VM + "add"][0]
-    a_pop = _which_pop(o.at(hc[1]["args"][1], hc[0]), pops)[0]
+    hcs = [(b, t) for b, t in hf.calls() if callee(t) == VM + "add"]
+    if hcs and len(pops) == 2:
+        hc = hcs[0]
+        a_pop = _which_pop(o.at(hc[1]["args"][1], hc[0]), pops)[0]
+    else:
+        # VM::add is reached through a shared helper / a closure: which pop arrives as its first value parameter, by evaluation
+        sim = OperandSim(F, depth=8)
+        sim.watch_calls = {VM + "add"}
+        try:
+            sim.run(F.fns[VM + "op_add"], [AI.U] * F.fns[VM + "op_add"].nargs)
+        except AI.Lossy as e:
+            need(False, "op_add: %s" % e)
+        seen = {(a[1], b[1]) for what, ty, a, b, where in sim.records if what == "call:" + VM + "add" and a[0] == "sym" and b[0] == "sym"}
+        need(len(seen) == 1, "op_add: the operands handed to VM::add were not identified (%s)" % sorted(seen))
+        a_pop = next(iter(seen))[0]
     left_param = 2 if a_pop == lp else 3
     ok = first == {left_param} and second == ({2, 3} - {left_param})
     r.inst("Add:str", hp.where(), ok, "string concatenation appends the left operand first" if ok else "string `+` concatenates right before left")
@@ -207,10 +302,20 @@ def r1(F):
     C = {"GT": ("op_gt", "Gt"), "LT": ("op_lt", "Lt"), "GTEqual": ("op_gteq", "Ge"), "LTEqual": ("op_lteq", "Le")}
     for v, (handler, want) in C.items():
         lp = left_pop(v)
-        res, hf = cmp_slots(handler, want)
+        try:
+            res, hf = cmp_slots(handler, want)
+        except AnchorError as first:
+            obs = operand_slots(F, handler, {"Gt", "Lt", "Ge", "Le"})
+            hf = F.fn(VM + handler)
+            need({ty for (w, ty) in obs} >= {"i64", "f64"}, "%s (%s); by evaluation only %s was observed" % (first, handler, sorted(obs)))
+            res = []
+            for (w, ty), pairs in sorted(obs.items()):
+                need(len(pairs) == 1, "%s: the operands of %s on %s arrive in several orders %s" % (handler, w, ty, sorted(pairs)))
+                s0, s1 = next(iter(pairs))
+                res.append((ty, w, [s0], [s1], None))
         for ty, op, a, c, b in res:
             ok = a == [lp] and c == [3 - lp]
-            r.inst("%s:%s" % (v, ty), hf.where(b), ok, "AST left is the left operand of the comparison" if ok else
+            r.inst("%s:%s" % (v, ty), hf.where(b) if b is not None else hf.where(), ok, "AST left is the left operand of the comparison" if ok else
                    "operands of the %s comparison are crossed for %s" % (v, ty))
     # regex
     for v in ("REMatch", "NotREMatch"):
